@@ -585,6 +585,23 @@ func checkTotal(ms modset) (vs []engine.Violation, base gen.Result, verdict, dum
 			mk("valid-set-rejected:"+ms.Name, base.Stage+": "+base.Err.Error())
 		}
 	}
+	// the same set compiled with a composite features checker from which another checker was derived in
+	// between: the same modules and the same enabled features, so the same outcome
+	if fs := setFeatures[ms.Name]; fs != nil && (verdict == "ok" || verdict == "error") {
+		var universe []string
+		for m, text := range ms.Mods {
+			for _, f := range reFeature.FindAllStringSubmatch(text, -1) {
+				universe = append(universe, m+":"+f[1])
+			}
+		}
+		sort.Strings(universe)
+		r := gen.Compile(ms.Mods, gen.Options{MapOrder: []int{}, Features: fs, FeatureSupply: "composite-after-derivation", FeatureUniverse: universe, SkipUnknown: strings.HasPrefix(ms.Name, "skip-unknown:")})
+		if v2, d2 := outcome(r); v2 != verdict {
+			mk("outcome-depends-on-the-history-of-the-features-checker:"+ms.Name, fmt.Sprintf("fresh checker: %s, composite checker another one was derived from: %s", verdict, v2))
+		} else if d2 != dump {
+			mk("outcome-depends-on-the-history-of-the-features-checker:"+ms.Name, gen.FirstDiff(dump, d2))
+		}
+	}
 	// a cyclic or dangling reference is an error whichever features the caller enables
 	if ms.Expect == "error" && verdict == "error" {
 		var feats []string
